@@ -64,6 +64,8 @@ def correspond(model_ok, res):
     kinds = {}
     seen = set()
     events_cases = []
+    exact_cases = []
+    n_f1 = 0
     for s, (k, v) in zip(strings, results):
         kinds[k] = kinds.get(k, 0) + 1
         if k == "other":
@@ -81,6 +83,8 @@ def correspond(model_ok, res):
         if len(s) > 3:
             seen.add(s)
         events_cases.append("(%s, %s, %s)" % (lib.g_str(s), lib.g_bool(f1), lib.g_bool(printed == s)))
+        exact_cases.append("(%s, %s)" % (lib.g_str(s), lib.g_str(printed)))
+        n_f1 += 1 if f1 else 0
     # history: a tree returned earlier may have been edited in place by the caller; parsing the same text again
     # must still give the tree that prints the text (a parse result is not shared with later calls)
     hist = [s for s, (k, _) in zip(strings, results) if k == "ok"][: (60 if quick else 400)]
@@ -114,7 +118,8 @@ def correspond(model_ok, res):
     res.samples = [s for s in strings[len(PG.MALFORMED):len(PG.MALFORMED) + 6]]
     res.distribution = {"outcomes": kinds, "max_len": max(map(len, strings)),
                         "accepted_with_numeral": sum(1 for s, (k, _) in zip(strings, results)
-                                                     if k == "ok" and NUM.search(s))}
+                                                     if k == "ok" and NUM.search(s)),
+                        "accepted_with_blank_before_colon(F1)": n_f1}
     if not model_ok:
         res.model_error = "model did not build"
         return
@@ -135,6 +140,21 @@ def correspond(model_ok, res):
         for i in bad:
             if i < len(events_cases):
                 res.disagreements.append({"input": ok_strings[i], "what": "ghost events vs implementation"})
+        # C01f: the LEXER-SIDE prediction of the printed form (Drops.expected_print: tokens as laid out in the
+        # input, minus the text between a field name and its colon, numerals as the consuming action prints them)
+        # is, character for character, what the implementation prints — for EVERY accepted input, F1 included
+        defs2 = ("Definition chk (c : str * str) : bool :=\n"
+                 "  let '(s, printed) := c in ostr_eqb (expected_print s) (Some printed).")
+        canary2 = "([102;32;58;97]%N, [102;32;58;97]%N)"      # 'f :a' prints 'f:a', not itself
+        bad2 = lib.eval_cases("C01f", PG.PARSE_IMPORTS + " Drops", defs2, exact_cases + [canary2], "chk", shard=150)
+        assert len(exact_cases) in bad2, "canary not detected"
+        for i in bad2:
+            if i < len(exact_cases):
+                res.disagreements.append({"input": ok_strings[i],
+                                          "what": "expected_print (lexer side) vs printed form of the implementation"})
+        res.notes.append("C01f: expected_print s == str(parse(s)) with head/tail on %d accepted inputs, %d of them "
+                         "with a blank before a colon (F1): the known finding is predicted exactly"
+                         % (len(exact_cases), n_f1))
     except Exception as e:
         res.model_error = "%s: %s" % (type(e).__name__, e)
 
@@ -142,14 +162,29 @@ def correspond(model_ok, res):
 SPEC = {
     "id": "C01",
     "targets": ["props/C01.vo"],
-    "model_targets": ["model/Parser.vo", "model/TreeEq.vo"],
+    "model_targets": ["model/Parser.vo", "model/TreeEq.vo", "model/Drops.vo"],
     "module": "C01",
     "theorems": ["C01_any_tables", "C01_partial", "C01_refuted"],
     "more": [{"module": "C01r", "target": "props/C01r.vo",
               "theorems": ["C01_respelled_any_tables", "C01_respelled_partial", "C01_respell_partial",
-                           "C01_respell_unguarded_refuted"]}],
+                           "C01_respell_unguarded_refuted"]},
+             {"module": "C01f", "target": "props/C01f.vo",
+              "theorems": ["C01_characterised", "C01_f1_exact", "C01_f1_only", "C01_f1_exact_loss",
+                           "C01_only_deviation", "C01f_cut_length", "C01f_staged",
+                           "C01_action_edited", "C01_any_tables_edited", "C01_any_tables_length",
+                           "C01_edited_trivial"]}],
     "correspond": correspond,
-    "statement": "C01_respelled_partial: the property's statement itself (print(tree) renders the input's tokens with "
+    "statement": "C01_characterised (C01f, NO guard): for EVERY accepted input print(tree) = expected_print(input), a "
+                 "function of the token list alone — the tokens as laid out in the input, minus the text between a TERM "
+                 "token and the COLUMN token right after it (exactly F1), with the numeral of ~ after a phrase printed as "
+                 "str(int(d)), of ~ after a term and of ^ as format(Decimal(d).normalize(),'f'); hence C01_f1_only (no blank "
+                 "before a colon => the property's own statement), C01_f1_exact_loss / C01_only_deviation (no numeral "
+                 "re-spelled => the printed form is the input minus those blank runs, and equals the input iff there is "
+                 "none): F1 is the only deviation and it is predicted character for character on every run. "
+                 "For ANY LR tables, no guard (C01_any_tables_edited): print(tree) is the input edited by the ghost events "
+                 "of the run — every dropped text removed, every token text replaced by what is printed for it — and the "
+                 "lengths add up (C01_any_tables_length). "
+                 "C01_respelled_partial: the property's statement itself (print(tree) renders the input's tokens with "
                  "numerals after ~ or ^ possibly re-spelled as numerically equal plain decimals that lex back the same) "
                  "for every accepted input on which no text is dropped (only F1 drops text); for ANY LR tables: no ghost "
                  "event => print(tree) = s exactly; the unguarded statement is refuted by 'foo :bar' (F1)",
@@ -158,7 +193,10 @@ SPEC = {
                   "print(tree) = input whenever the model's ghost log is empty; and (C01r) the token-level statement of "
                   "the property with numeral re-spelling, proved on the generated tables under the single guard "
                   "'no text dropped' via a decimal print/parse round-trip lemma and a strengthened LR stack-typing "
-                  "invariant (PARTIAL only in that F1 refutes the unguarded statement). "
+                  "invariant (PARTIAL only in that F1 refutes the unguarded statement); and (C01f) WITHOUT guard, the exact "
+                  "printed form of every accepted input as a lexer-side function, through a stack invariant in which every "
+                  "value under a nonterminal prints exactly the expected rendering of its token segment (one case per "
+                  "production of the generated grammar). "
                   "Lexer, actions and driver are hand-written models tied to /repo by the generated "
                   "LALR tables, token-regex source checks and differential correspondence on every run.",
     "trusted_base": [
